@@ -96,7 +96,7 @@ def exC : CFields :=
 
 theorem ex_codec : codecOf (.struct exF) = .struct exC := by
   have hm : (lookupProtobuf "").bind parseStructTag = none := modelTag_empty
-  simp [exF, exInnerF, exC, exInnerC, codecOf, fieldsOf, hm, fieldCodecOf, isStructBase, baseTy, Codec.wire]
+  simp [exF, exInnerF, exC, exInnerC, codecOf, fieldsOf, hm, fieldCodecOf, isStructBase, embBase, baseTy, Codec.wire]
 
 /-- **the conclusion of the theorem, checked independently by evaluation** (`rfl`; the struct tags are the only thing
 the kernel cannot evaluate — `String.splitOn` — hence `ex_codec` first) -/
@@ -118,7 +118,7 @@ theorem m_ty : tyOKM (.struct mF) = true := by
     keyTy, isSlice]
 theorem m_codec : codecOf (.struct mF) = .struct mC := by
   have hm : (lookupProtobuf "").bind parseStructTag = none := modelTag_empty
-  simp [mF, mC, codecOf, fieldsOf, hm, fieldCodecOf, isStructBase, baseTy, Codec.wire]
+  simp [mF, mC, codecOf, fieldsOf, hm, fieldCodecOf, isStructBase, embBase, baseTy, Codec.wire]
 
 /-- the model's map arm on an empty entry chunk, every map codec: nothing is assigned (the slot becomes a non-nil map) -/
 theorem decode_map_empty (f num : Nat) (kc vc : Codec) (kEmb vEmb : Bool) (entry : Codec) (cur : Val) (fl : Flags) :
